@@ -1,28 +1,39 @@
 """C14 – saving never loses the last good save; failed saves and loads leave no residue.
 
-Implementation side: a small model is saved repeatedly (directory and zip format, backups on) to
-one path; with `mxh.faults.Injector` every primitive file operation of a save (the unlink/rmdir
-calls of the rmtree of the oldest generation, the renames of the rotation, mkdir, every open for
-writing, the pickle dump, every ZipFile write/close, the final move, the clean-up of the
-temporary directory) is taken in turn as the point of failure.  After each attempt the slots
-`path, path_BAK1 .. path_BAK4` are classified as absent / good <format> <generation> / partial
-<format>: a slot is *good g* iff its file tree (names and contents; members for an archive) is
-equal to a reference save of generation g made with no fault.
+Implementation side: a model is saved repeatedly (directory and zip format, backups on) to one
+path.  The models (`MODEL_KINDS`) include ones that own IO data files with relative paths - module
+sources (`new_module`), csv and Excel files written by pandas (`new_pandas`), a workbook kept by
+openpyxl (`new_excel_range`) - so that `IOManager.write_ios`, the work directory of a zip save,
+`ziputil.archive_dir` / `copy_file` (file -> archive, with its GH82 retry loop) and, on load,
+`copy_file` (archive -> file) run.  With `mxh.faults.Injector` every primitive file operation of a
+save (the unlink/rmdir calls of the rmtree of the oldest generation, the renames of the rotation,
+mkdir, every open for writing, the pickle dump, every ZipFile write/close, the final move, the
+clean-up of the temporary directory) is taken in turn as the point of failure, under fault *policies*:
+the error is an OSError, a PermissionError or a FileNotFoundError, and it is transient (that one
+operation fails) or persistent (every further attempt at the same operation on the same file fails
+too) - so the retry loops and `except` clauses see both an error they absorb and one they must give
+up on.  After each attempt the slots `path, path_BAK1 .. path_BAK4` are classified as absent /
+good <format> <generation> / partial <format>: a slot is *good g* iff its file tree (names and
+contents, IO data files included; members for an archive; a workbook member by member without its
+time stamp) is equal to a reference save of generation g made with no fault.
 
-Correspondence: the same sequence (format, sizes counted from the implementation's own
-operation trace, fault index) is given to the Lean model (`mxdriver backup`, theorems in
-Props/C14.lean); the outcome (raised or not), the rotation/writer plan (which slot is removed,
-which renames in which order, where the move happens) and all slots are compared.
+Correspondence: the same sequence (format, the writer's operation kinds read off the implementation's
+own operation trace, fault index, fault policy) is given to the Lean model (`mxdriver backup`,
+theorems in Props/C14.lean); the outcome (raised or not), the rotation/writer plan (which slot is
+removed, which renames in which order, where the move happens, which operations sit under a handler)
+and all slots are compared.
 
 Oracle (implementation only): the statement – after any save, interrupted or not, the most
-recent complete copy is intact (and loadable, with the right values) at the path or at the first
-backup and no complete copy that existed was lost; generations are in order, nothing beyond
-_BAK3; no slot ever holds a partial file; the registry and the `serializing` flags are as before,
-no temporary directory is left; a failed load (damaged saves of both formats, every file missing
-/ garbage / truncated; faults at every read operation) leaves the registry as it was; a later
-save and load work.
+recent complete copy is intact (and loadable, with the right values, module functions and pandas /
+Excel data included) at the path or at the first backup and no complete copy that existed was lost; a
+save that reports success has put the complete new generation at the path; generations are in order,
+nothing beyond _BAK3; no slot ever holds a partial file; the registry and the `serializing` flags are
+as before, no temporary directory is left; a failed load (damaged saves of both formats, every file
+missing / garbage / truncated; faults at every read operation, under the same policies) leaves the
+registry as it was; a later save and load work.
 """
 import hashlib
+import io
 import os
 import shutil
 import tempfile
@@ -35,6 +46,7 @@ from ..impl import mx, close_all, quiet, err_kind
 KEY_TWO_FAILED = "C14-failed-dir-save-then-save"
 KEY_LOAD_RENAME = "C14-failed-load-renames-existing"
 KEY_ZIP_TRUNC = "C14-zip-reopen-error-truncates-archive"
+KEY_RETRY_CLOSE = "C14-copyfile-retry-after-failed-close-drops-members"
 NSLOTS = 5          # path, _BAK1 .. _BAK4 (the last one must never exist)
 
 _sys = mx.core.mxsys
@@ -42,26 +54,69 @@ _sys = mx.core.mxsys
 
 # ----------------------------------------------------------------------------- programs
 
-MODEL_KINDS = ["flat", "nested", "pandas"]
+MODEL_KINDS = ["flat", "nested", "pandas", "module", "excel", "mixed"]
+IO_KINDS = ("pandas", "module", "excel", "mixed")      # models that own IO data files
+
+_MODULE_SRC = "def twice(x):\n    return 2 * x\n\n\ndef shift(x):\n    return x + %d\n"
+_SRC_DIR = None
+
+
+def _sources():
+    """files the IO data of the models is created from (outside every save location)"""
+    global _SRC_DIR
+    if _SRC_DIR is None or not os.path.isdir(_SRC_DIR):
+        _SRC_DIR = tempfile.mkdtemp(prefix="mxh_c14_src_", dir=_SRC_ROOT or None)
+        for i in (1, 2):
+            with open(os.path.join(_SRC_DIR, "helper%d.py" % i), "w") as f:
+                f.write(_MODULE_SRC % i)
+        import openpyxl
+        wb = openpyxl.Workbook()
+        ws = wb.active
+        ws.title = "Sheet1"
+        for r, row in enumerate([["k", "v"], ["a", 1], ["b", 2], ["c", 3]], start=1):
+            for c, v in enumerate(row, start=1):
+                ws.cell(row=r, column=c, value=v)
+        wb.save(os.path.join(_SRC_DIR, "book.xlsx"))
+    return _SRC_DIR
+
+
+_SRC_ROOT = None
 
 
 def build_model(kind, name="Saved"):
-    """-> (model, set_gen)"""
+    """a model of one of MODEL_KINDS.  The IO kinds own data files with paths relative to the
+    model (module sources, csv and Excel files written by pandas, an Excel workbook read by
+    openpyxl): a directory save writes them below the path, a zip save writes them into a work
+    directory and copies them into the archive (ziputil.archive_dir / copy_file); a load from an
+    archive extracts them again (copy_file, archive -> file)."""
     with quiet():
         m = mx.new_model(name)
         s = m.new_space("S")
         s.new_cells("f", formula="lambda x: x * gen")
         s.gen = 0
         s.f[7] = 70                       # input value -> S/_data/f (and a non-empty _input_log.txt)
-        if kind in ("nested", "pandas"):
+        if kind != "flat":
             c = s.new_space("Child")
             c.new_cells("g", formula="lambda: 5")
             s.lst = [1, 2, 3]             # pickled -> _data/data.pickle
             m.top = "abc"
-        if kind == "pandas":
+        if kind in ("pandas", "mixed"):
             import pandas as pd
             df = pd.DataFrame({"a": [1, 2], "b": [3, 4]})
             m.new_pandas("df", "files/df.csv", df, file_type="csv")
+        if kind in ("module", "mixed"):
+            src = _sources()
+            m.new_module("helper", "lib/helper.py", os.path.join(src, "helper1.py"))
+            s.new_module("helper2", "lib/sub/helper2.py", os.path.join(src, "helper2.py"))
+            s.new_cells("h", formula="lambda x: helper2.shift(x)")
+        if kind in ("excel", "mixed"):
+            import pandas as pd
+            src = _sources()
+            # two specs in one workbook written by pandas, one range of a workbook kept by openpyxl
+            m.new_pandas("xa", "files/book.xlsx", pd.DataFrame({"p": [1, 2, 3]}), file_type="excel", sheet="A")
+            s.new_pandas("xb", "files/book.xlsx", pd.Series([4, 5], name="xb"), file_type="excel", sheet="B")
+            s.new_excel_range("rng", "files/range.xlsx", "A2:B4", sheet="Sheet1", keyids=["c0"],
+                              loadpath=os.path.join(src, "book.xlsx"))
     return m
 
 
@@ -69,12 +124,27 @@ def set_gen(m, g):
     m.S.gen = g
 
 
+def _describe_value(v):
+    """a reference's value, independent of addresses and of where the model was loaded from"""
+    import types
+    if isinstance(v, types.ModuleType):
+        return ("module", sorted((n, repr(f(3))) for n, f in vars(v).items()
+                                 if callable(f) and not n.startswith("_")))
+    if hasattr(v, "to_dict") and hasattr(v, "index"):          # DataFrame / Series
+        return ("pandas", type(v).__name__, repr(sorted((repr(k), repr(x)) for k, x in v.to_dict().items())),
+                repr(list(v.index)))
+    if type(v).__name__ == "ExcelRange":
+        return ("xlrange", sorted((repr(k), repr(x)) for k, x in dict(v).items()))
+    return repr(v)
+
+
 def describe(m):
     """what a loaded copy must contain (name-independent)"""
     d = {}
     for sn, s in m.spaces.items():
         d[sn] = _describe_space(s)
-    d["#refs"] = sorted(k for k in m.refs if not k.startswith("_"))
+    d["#refs"] = {k: _describe_value(v) for k, v in m.refs.items() if not k.startswith("_")}
+    d["#iospecs"] = sorted((type(sp).__name__, sp.path.as_posix()) for sp in m.iospecs)
     return d
 
 
@@ -83,8 +153,7 @@ def _describe_space(s):
         "cells": {cn: (c.formula.source if c.formula else None,
                        sorted((repr(k), repr(v)) for k, v in dict(c).items()))
                   for cn, c in s.cells.items()},
-        "refs": {k: repr(v) if not hasattr(v, "shape") else "df%s" % (v.shape,)
-                 for k, v in s.refs.items() if not k.startswith("_")},
+        "refs": {k: _describe_value(v) for k, v in s.refs.items() if not k.startswith("_")},
         "spaces": {n: _describe_space(c) for n, c in s.named_spaces.items()},
     }
 
@@ -99,6 +168,22 @@ def slot_name(i):
     return "P" if i == 0 else "B%d" % i
 
 
+def _content_sig(name, data):
+    """sha1 of a member's content; a workbook (itself an archive whose `docProps/core.xml` carries
+    the time of writing) is compared member by member without that file"""
+    if name.endswith(".xlsx"):
+        try:
+            with zipfile.ZipFile(io.BytesIO(data)) as z:
+                if z.testzip() is not None:
+                    return "xlsx:damaged"
+                inner = sorted((n, hashlib.sha1(z.read(n)).hexdigest()) for n in z.namelist()
+                               if n != "docProps/core.xml")
+            return "xlsx:" + hashlib.sha1(repr(inner).encode()).hexdigest()
+        except Exception:
+            return "xlsx:unreadable:" + hashlib.sha1(data).hexdigest()
+    return hashlib.sha1(data).hexdigest()
+
+
 def signature(path):
     """canonical content of a slot: relative name -> sha1 of the content; None if unreadable"""
     if os.path.isdir(path):
@@ -110,13 +195,14 @@ def signature(path):
                 sig[rel + "/"] = "dir"
             for f in sorted(files):
                 with open(os.path.join(d, f), "rb") as fh:
-                    sig[os.path.normpath(os.path.join(rel, f))] = hashlib.sha1(fh.read()).hexdigest()
+                    name = os.path.normpath(os.path.join(rel, f))
+                    sig[name] = _content_sig(name, fh.read())
         return sig
     try:
         with zipfile.ZipFile(path) as z:
             if z.testzip() is not None:
                 return None
-            return {n: hashlib.sha1(z.read(n)).hexdigest() for n in sorted(z.namelist())}
+            return {n: _content_sig(n, z.read(n)) for n in sorted(z.namelist())}
     except Exception:
         return None
 
@@ -138,6 +224,7 @@ class World:
         self.refs = {}            # (fmt, g) -> signature
         self.expected = {}        # g -> description
         self.snapn = 0
+        self.probed = set()       # (format, generation) of the complete copies already loaded back
 
     # ---- saving
     def _save(self, fmt, path, backup=True):
@@ -178,11 +265,11 @@ class World:
             return pre + "T" + s[len(self.T):]
         return pre + "?" + s
 
-    def attempt(self, fmt, g, fault_at=None, variant="before", backup=True):
+    def attempt(self, fmt, g, fault_at=None, variant="before", backup=True, policy="once", exc="os"):
         """one save; -> (raised kind or None, injector)"""
         set_gen(self.model, g)
         inj = Injector([self.work, self.T], fault_at=fault_at, variant=variant, label=self.label,
-                       reads=True)
+                       reads=True, policy=policy, exc=exc)
         raised = None
         with quiet():
             with inj:
@@ -226,6 +313,11 @@ class World:
         shutil.copytree(snap, self.work, symlinks=True)
         self.clean_T()
 
+    def residue(self):
+        """what a save or load left in the temporary directory (openpyxl's own temporary files, which
+        it does not remove when writing a sheet fails, are not modelx's)"""
+        return sorted(n for n in os.listdir(self.T) if not n.startswith("openpyxl."))
+
     def clean_T(self):
         for n in os.listdir(self.T):
             p = os.path.join(self.T, n)
@@ -239,11 +331,31 @@ class World:
 
 # ----------------------------------------------------------------------------- traces -> plan tokens
 
-def tokens_of(trace, complete):
-    """map the implementation's operation trace to the model's primitives"""
+def _is_tmp_archive(a0):
+    """`T/<temporary directory>/model`: the archive a zip save builds before it is moved"""
+    return a0.startswith("T/") and a0.count("/") == 2 and a0.endswith("/model")
+
+
+def tokens_of(trace, complete, fmt=None):
+    """map the implementation's operation trace to the model's primitives.
+
+    rotation: `rmN` / `rmN!` / `mvN`;  writer, directory format: `mkroot`, `w` (an operation below the
+    path; `W` the last one), zip format: `move`;  both: `t` (an operation in the temporary directory),
+    `c` / `r` (zipfile.ZipFile opens a new or still empty / an already filled archive for update: an
+    OSError of that open is swallowed by zipfile's file-mode retry, which for `r` truncates), `p` (an
+    operation under a handler that absorbs one PermissionError and tries again: ZipFile.write inside
+    ziputil.copy_file's GH82 loop, the unlink/rmdir of TemporaryDirectory.cleanup), `q` (the close of
+    the archive inside that loop: the next attempt finds an archive without central directory)."""
+    zip_targets = set()
+    for ent in trace:
+        for a in ent[1:]:
+            if isinstance(a, str) and a.startswith("zip:"):
+                zip_targets.add(a[4:])
     toks = []
     phase = "rot"
-    opens = 0
+    opens = {}
+    in_copy = False          # between ZipFile.write(src, member) and the close of that ZipFile
+    moved = False
     for ent in trace:
         name, args = ent[0], ent[1:]
         a0 = args[0] if args else ""
@@ -263,21 +375,32 @@ def tokens_of(trace, complete):
                 continue
             phase = "write"
         # writer
+        in_T = a0 == "T" or a0.startswith("T/") or a0.startswith("zip:T/")
+        in_P = a0.startswith("P/") or a0.startswith("zip:P/")
         if name == "mkdir" and a0 == "P":
             toks.append("mkroot")
         elif name == "rename" and len(args) == 2 and a0.startswith("T") and args[1] == "P":
             toks.append("move")
-        elif name == "open:w" and a0.startswith("T/") and a0.count("/") == 2 and a0.endswith("/model"):
-            # ZipFile(root, "w" | "a"): an OSError here is swallowed by zipfile (retry with the next
-            # file mode); from the third opening on the retry truncates an archive that has members
-            opens += 1
-            toks.append("c" if opens <= 2 else "r")
-        elif a0.startswith("T") or a0.startswith("zip:T") or (a0.startswith("<fd>") and "move" in toks) \
-                or (name.startswith("pickle") and any(t in ("t", "c", "r") for t in toks)) \
-                or (name.startswith("zip.")):
-            toks.append("t")
-        elif a0.startswith("P/") or name.startswith("pickle"):
+            moved = True
+        elif moved:
+            # tempdir.cleanup(): rmtree with TemporaryDirectory's PermissionError handler
+            toks.append("p" if name in ("unlink", "rmdir") else "?%s:%s" % (name, a0))
+        elif name == "open:w+" and a0 in zip_targets:
+            # ZipFile(file, "w" | "a"): an OSError here is swallowed by zipfile (retry with the next
+            # file mode); for the temporary archive, from the third opening on the retry truncates
+            # an archive that has members
+            opens[a0] = opens.get(a0, 0) + 1
+            toks.append("r" if _is_tmp_archive(a0) and opens[a0] > 2 else "c")
+        elif name == "zip.write" and a0.startswith("zip:") and _is_tmp_archive(a0[4:]):
+            in_copy = True
+            toks.append("p")
+        elif name == "zip.close" and in_copy and a0.startswith("zip:") and _is_tmp_archive(a0[4:]):
+            in_copy = False
+            toks.append("q")
+        elif in_P or (name.startswith("pickle") and fmt == "dir"):
             toks.append("w")
+        elif in_T or (name.startswith("pickle") and fmt == "zip"):
+            toks.append("t")
         else:
             toks.append("?%s:%s" % (name, a0))
     if complete and toks and toks[-1] == "w":
@@ -296,16 +419,45 @@ def compress(toks):
 
 
 def sizes_of(toks):
-    """what the environment determines: entries of the tree removed, the writer's operations"""
+    """what the environment determines: entries of the tree removed, the writer's operations
+    (directory format: those after `make_root` but the last, zip format: those before the move), the
+    number of clean-up operations after the move"""
     nrm = sum(1 for t in toks if t.startswith("rm"))
     if "move" in toks:
         k = toks.index("move")
-        n1 = "".join(t for t in toks[:k] if t in ("t", "c", "r")) or "-"
-        n2 = sum(1 for t in toks[k + 1:] if t == "t")
+        n1 = "".join(t for t in toks[:k] if t in ("t", "c", "r", "p", "q")) or "-"
+        n2 = sum(1 for t in toks[k + 1:] if t == "p")
     else:
-        n1 = max(sum(1 for t in toks if t in ("w", "W")) - 1, 0)
+        body = [t for t in toks if t in ("w", "W", "t", "c")]
+        n1 = "".join(body[:-1]) or "-"
         n2 = 0
     return max(nrm, 1), n1, n2
+
+
+POLCODE = {("os", "once"): "os1", ("os", "persist"): "osP", ("perm", "once"): "perm1", ("perm", "persist"): "permP",
+           # a FileNotFoundError is an OSError that no handler of the save path singles out
+           ("notfound", "once"): "os1", ("notfound", "persist"): "osP"}
+SENSITIVE = ("c", "r", "p", "q", "move")      # tokens at which the outcome depends on the policy
+
+
+def policy_allowed(entry, tok, exc, policy):
+    """CPython's TemporaryDirectory._rmtree calls itself without bound when the `rmdir` of a directory
+    keeps raising PermissionError (tempfile.py, `except IsADirectoryError: cls._rmtree(path, ...)`):
+    standard-library behaviour, nothing of modelx runs - not injected"""
+    return not (entry[0] == "rmdir" and exc == "perm" and policy == "persist")
+
+
+def trunc_key_of(tok, exc, policy):
+    """the recognised triggers of the two archive findings: a transient error at a re-opening of the
+    temporary archive (swallowed by zipfile, whose next file mode truncates), a transient
+    PermissionError at the close of the archive inside copy_file's retry loop"""
+    if policy != "once":
+        return None
+    if tok == "r":
+        return KEY_ZIP_TRUNC
+    if tok == "q" and exc == "perm":
+        return KEY_RETRY_CLOSE
+    return None
 
 
 def strip_part(state):
@@ -320,12 +472,16 @@ def world_fmt_of(hist, g):
     return hist[0]["hist"][g - 1]["fmt"]
 
 
+def world_fmt_of_slot(state):
+    return state.split(":")[1]
+
+
 def gen_of(state):
     return int(state.split(":")[2]) if state.startswith("good") else None
 
 
 def check_save(world, out, hist_txt, pre, post, raised, fmt, g, backup, fired_after_move, stats, probe,
-               at_reopen=False, all_ok_so_far=False):
+               trunc_key=None, all_ok_so_far=False, zcause=None):
     """the statement, on what the implementation left on disk"""
     m = world.model
 
@@ -338,26 +494,27 @@ def check_save(world, out, hist_txt, pre, post, raised, fmt, g, backup, fired_af
         fail("a save changed the registered models: %s" % sorted(reg))
     if _sys.serializing is not None or _sys.iomanager.serializing is not None:
         fail("serializing flag still set after a %s save" % ("failed" if raised else "successful"))
-    if os.listdir(world.T) and not fired_after_move:
-        fail("temporary directory left behind after a %s save" % ("failed" if raised else "successful"))
+    if world.residue() and not fired_after_move:
+        fail("temporary directory left behind after a %s save" % ("failed" if raised else "successful"),
+             detail={"left": world.residue()})
     world.clean_T()
     if not backup:
         return
     # the recognised triggers: the save starts from a path that holds a partial copy - a directory
     # tree left by a failed directory save, or an archive truncated by zipfile's retry
     trigger = pre[0].startswith("part")
-    key = {"part:dir": KEY_TWO_FAILED, "part:zip": KEY_ZIP_TRUNC}.get(pre[0])
+    key = {"part:dir": KEY_TWO_FAILED, "part:zip": zcause or KEY_ZIP_TRUNC}.get(pre[0])
     if trigger:
         stats["trigger_states"] += 1
     # no partial archive, nothing beyond _BAK3
     # the recognised trigger of the zipfile finding: the OSError hit a re-opening of the temporary
     # archive and the save went on to report success
-    zkey = KEY_ZIP_TRUNC if (at_reopen and raised is None and fmt == "zip") else None
+    zkey = trunc_key if (raised is None and fmt == "zip") else None
     for i, s in enumerate(post):
         if s == "part:zip":
             fail("%s holds a partially written archive" % slot_name(i),
                  key=zkey if (i == 0 and pre[0] != "part:zip") else
-                 (KEY_ZIP_TRUNC if s in pre else None))
+                 ((zcause or KEY_ZIP_TRUNC) if s in pre else None))
     if post[NSLOTS - 1] != "-":
         fail("a fourth backup exists")
     # success puts the new generation at the path and the old content at _BAK1
@@ -390,8 +547,12 @@ def check_save(world, out, hist_txt, pre, post, raised, fmt, g, backup, fired_af
     if any(a <= b for a, b in zip(gs, gs[1:])):
         fail("generations out of order: %s" % post)
     # intact = loadable, with the values of that generation
-    if probe and post_g:
+    # (a slot classified complete has the names and contents of the reference save of that generation,
+    # so one load per generation and format says what every such copy loads to)
+    if post_g and (probe or raised is None) and (world_fmt_of_slot(post[max(post_g)[1]]), max(post_g)[0]) \
+            not in world.probed:
         gg, i = max(post_g)
+        world.probed.add((world_fmt_of_slot(post[i]), gg))
         desc = None
         try:
             with quiet():
@@ -422,14 +583,43 @@ def choose_indices(ctx, n, toks, rng):
     if "move" in toks:
         k = toks.index("move")
         keep |= {k - 1, k, k + 1}
+    # the operations under a retry handler / a swallowing caller: the first and the last of each kind,
+    # every ZipFile.write / close of copy_file's loop (one pair per IO data file)
+    for kind in ("c", "r"):
+        idx = [i for i, t in enumerate(toks) if t == kind]
+        keep |= set(idx[:1] + idx[-1:])
+    move_at = toks.index("move") if "move" in toks else n
+    keep |= {i for i, t in enumerate(toks) if t in ("p", "q") and i < move_at}
     keep.add(rng.randrange(n))
     return sorted(i for i in keep if 0 <= i < n)
 
 
+ALL_POLICIES = [("os", "once"), ("os", "persist"), ("perm", "once"), ("perm", "persist")]
+
+
+def choose_policies(ctx, entry, tok, rng, after_move=False):
+    """the ways the chosen operation fails: always a transient OSError; where the calling code has a
+    handler (zipfile's file-mode retry, copy_file's GH82 loop, shutil.move, TemporaryDirectory) every
+    combination of error class and persistence; elsewhere one more combination, drawn (quick: for a third
+    of the operations)"""
+    if tok in SENSITIVE:
+        pols = list(ALL_POLICIES)
+        # (a FileNotFoundError in tempdir.cleanup() is ignored by TemporaryDirectory: standard library,
+        # not modelled - the class is not injected there)
+        if not after_move and rng.random() < (1.0 if ctx.tier == "thorough" else 0.15):
+            pols.append(("notfound", "once"))
+    else:
+        # no handler around the operation: whatever is raised propagates
+        pols = [("os", "once")]
+        if ctx.tier == "thorough" or rng.random() < 0.35:
+            pols.append(rng.choice(ALL_POLICIES[1:] + ([] if after_move else [("notfound", "persist")])))
+    return [(e, pl) for e, pl in pols if policy_allowed(entry, tok, e, pl)]
+
+
 def run_save_history(ctx, world, hist, out, stats, lines, rng):
-    """hist: list of dicts {fmt, backup, fault: fraction | at: index | neither, variant, enum};
-    an entry with `enum` is executed once for every fault index (it must be the last one).
-    Appends (driver op, implementation observation, replayable history) to `lines`."""
+    """hist: list of dicts {fmt, backup, fault: fraction | at: index | neither, variant, policy, exc,
+    enum}; an entry with `enum` is executed once for every fault index and fault policy (it must be
+    the last one).  Appends (driver op, implementation observation, replayable history) to `lines`."""
     world.reset()
     lines.append(("reset", "ok", None))
     lines.append(("newmodel Saved", None, None))
@@ -437,6 +627,7 @@ def run_save_history(ctx, world, hist, out, stats, lines, rng):
     g = 0
     resolved = []           # the saves executed so far, with absolute fault indices
     txt = []
+    zcause = [None]         # which finding produced the partial archive that is in the chain
     pre = world.classify(gens)
     for idx, sv in enumerate(hist):
         g += 1
@@ -447,7 +638,7 @@ def run_save_history(ctx, world, hist, out, stats, lines, rng):
         # pass 1: no fault, to learn the operation sequence
         raised, inj = world.attempt(fmt, g, None, backup=backup)
         full = list(inj.trace)
-        toks = tokens_of(full, complete=raised is None)
+        toks = tokens_of(full, complete=raised is None, fmt=fmt)
         n = len(full)
         nrm, n1, n2 = sizes_of(toks)
         b = "B" if backup else "N"
@@ -455,13 +646,17 @@ def run_save_history(ctx, world, hist, out, stats, lines, rng):
         post = world.classify(gens)
         base_txt, base_res = list(txt), list(resolved)
 
-        def record(k, variant, raised_k, post_k, fired):
+        def record(k, variant, raised_k, post_k, fired, exc="os", policy="once", nfired=0):
             entry = {"fmt": fmt, "backup": backup, "at": k, "variant": variant}
+            if (exc, policy) != ("os", "once"):
+                entry.update(exc=exc, policy=policy)
             spec = {"type": "save", "model": world.kind, "log_input": world.log_input,
                     "hist": base_res + [entry]}
-            t = base_txt + ["save %s %s g=%d fault=%s%s" % (b, fmt, g, "-" if k is None else k,
-                                                             "" if variant == "before" else ":" + variant)]
-            op = "save %s %s %d %d %s %d %s" % (b, fmt, g, nrm, n1, n2, "-" if k is None else k)
+            pol = "" if (exc, policy) == ("os", "once") else ":%s:%s" % (exc, policy)
+            t = base_txt + ["save %s %s g=%d fault=%s%s%s" % (b, fmt, g, "-" if k is None else k,
+                                                               "" if variant == "before" else ":" + variant, pol)]
+            op = "save %s %s %d %d %s %d %s %s" % (b, fmt, g, nrm, n1, n2, "-" if k is None else k,
+                                                   POLCODE[(exc, policy)])
             obs = "%s plan=%s | %s" % ("ok" if raised_k is None else "fail", compress(toks),
                                        " ".join("%s=%s" % (slot_name(i), s) for i, s in enumerate(post_k)))
             lines.append((op, obs, [spec] + t))
@@ -485,37 +680,61 @@ def run_save_history(ctx, world, hist, out, stats, lines, rng):
             stats["saves"] += 1
             stats["fmt:" + fmt] += 1
             stats["pre_path:" + pre[0].split(":")[0]] += 1
+            tok = toks[k] if k is not None and k < len(toks) else None
+            if k is not None:
+                stats["policy:%s:%s" % (exc, policy)] += 1
+                stats["fault_token:" + (tok.rstrip("0123456789!") if tok else "-")] += 1
+                if raised_k is None:
+                    stats["absorbed:%s:%s:%s" % (tok, exc, policy)] += 1
+                if nfired > 1:
+                    stats["persistent_refired"] += 1
             if raised_k is not None:
                 stats["faulted"] += 1
                 if fired:
                     stats["fault_op:" + fired[0]] += 1
             fam = move_at is not None and k is not None and k > move_at
+            tk = trunc_key_of(tok, exc, policy) if k is not None else None
             check_save(world, out, [spec] + t, pre, post_k, raised_k, fmt, g, backup, fam, stats,
                        probe=(stats["saves"] % ctx.n(3, 1) == 0),
-                       at_reopen=(k is not None and k < len(toks) and toks[k] == "r"),
+                       trunc_key=tk, zcause=zcause[0],
                        all_ok_so_far=(k is None and backup and all(e["at"] is None and e["backup"] for e in base_res)))
-            return t, entry
+            return t, entry, tk
 
         if raised is not None:
             # the unfaulted save itself failed: nothing was injected
-            t, _ = record(None, "before", raised, post, None)
+            t, _, _ = record(None, "before", raised, post, None)
             out.fail("a save with no fault injected raised %s" % raised, lines[-1][2],
                      detail={"pre": pre, "post": post, "trace": [list(e) for e in full]})
             shutil.rmtree(snap, ignore_errors=True)
             return
+        bad = [t for t in toks if t.startswith("?")]
+        if bad:
+            out.fail("operation trace of a save not understood: %s" % bad[:3], [{"type": "save", "model": world.kind,
+                     "log_input": world.log_input, "hist": base_res + [{"fmt": fmt, "backup": backup, "at": None,
+                                                                         "variant": "before"}]}],
+                     detail={"trace": [list(e) for e in full]})
         if not sv.get("enum"):
             k = sv.get("at")
             if k is None and sv.get("fault") is not None:
                 k = min(int(sv["fault"] * n), n - 1)
+            exc, policy = sv.get("exc", "os"), sv.get("policy", "once")
+            if k is not None and k < n and not policy_allowed(full[k], toks[k], exc, policy):
+                exc, policy = "os", "once"
             if k is None or k >= n:
-                txt, entry = record(None, "before", None, post, None)
+                txt, entry, _ = record(None, "before", None, post, None)
                 pre = post
             else:
                 world.restore(snap)
-                raised_k, inj_k = world.attempt(fmt, g, k, sv.get("variant", "before"), backup=backup)
+                raised_k, inj_k = world.attempt(fmt, g, k, sv.get("variant", "before"), backup=backup,
+                                                policy=policy, exc=exc)
                 post_k = world.classify(gens)
-                txt, entry = record(k, sv.get("variant", "before"), raised_k, post_k, inj_k.fired)
+                txt, entry, tk = record(k, sv.get("variant", "before"), raised_k, post_k, inj_k.fired,
+                                        exc=exc, policy=policy, nfired=inj_k.nfired)
+                if tk and raised_k is None and post_k[0] == "part:zip":
+                    zcause[0] = tk
                 pre = post_k
+            if not any(x.startswith("part:zip") for x in pre):
+                zcause[0] = None
             resolved.append(entry)
             shutil.rmtree(snap, ignore_errors=True)
             continue
@@ -523,14 +742,16 @@ def run_save_history(ctx, world, hist, out, stats, lines, rng):
         record(None, "before", None, post, None)
         lines.append(("back", "ok", None))
         for k in choose_indices(ctx, n, toks, rng):
-            variants = ["before"]
-            if full[k][0] == "open:w" and (ctx.tier == "thorough" or rng.random() < 0.3):
-                variants.append("after")
-            for variant in variants:
+            combos = [("before", e, pl) for e, pl in choose_policies(
+                ctx, full[k], toks[k], rng, after_move=move_at is not None and k > move_at)]
+            if full[k][0].startswith("open:w") and (ctx.tier == "thorough" or rng.random() < 0.3):
+                combos.append(("after", "os", "once"))
+            for variant, exc, policy in combos:
                 world.restore(snap)
-                raised_k, inj_k = world.attempt(fmt, g, k, variant, backup=backup)
+                raised_k, inj_k = world.attempt(fmt, g, k, variant, backup=backup, policy=policy, exc=exc)
                 post_k = world.classify(gens)
-                t, _ = record(k, variant, raised_k, post_k, inj_k.fired)
+                t, _, _ = record(k, variant, raised_k, post_k, inj_k.fired, exc=exc, policy=policy,
+                                 nfired=inj_k.nfired)
                 lines.append(("back", "ok", None))
                 stats["enumerated_points"] += 1
                 # a load of what the failed save left behind must not leave anything either
@@ -561,9 +782,9 @@ def check_failed_load(world, out, txt, stats):
         out.fail("serializing flag still set after a failed load", txt)
         _sys.serializing = None
         _sys.iomanager.serializing = None
-    if os.listdir(world.T):
+    if world.residue():
         out.fail("temporary directory left behind after a load", txt)
-        world.clean_T()
+    world.clean_T()
 
 
 def gen_history(rng, length):
@@ -578,6 +799,8 @@ def gen_history(rng, length):
             sv["fault"] = rng.random()
             if rng.random() < 0.3:
                 sv["variant"] = "after"
+            elif rng.random() < 0.5:
+                sv["exc"], sv["policy"] = rng.choice(ALL_POLICIES[1:])
         if rng.random() < 0.04:
             sv["backup"] = False
         hist.append(sv)
@@ -603,6 +826,14 @@ CORPUS = [
     _h(D, Z, D, {"fmt": "zip", "fault": 0.5}, D),
     # a failed directory save followed by a successful one is harmless
     _h(Z, {"fmt": "dir", "fault": 0.9, "variant": "after"}, Z, Z),
+]
+# for the models that own IO data files: a zip save over a zip save, over a directory save, a directory
+# save over a zip save (every operation of the work directory, of archive_dir / copy_file and of the
+# clean-up as fault point, under every policy), a persistent failure in between
+CORPUS_IO = [
+    _h(Z, Z),
+    _h(Z, D),
+    _h(D, {"fmt": "zip", "fault": 0.85, "exc": "perm", "policy": "persist"}, Z),
 ]
 
 
@@ -670,6 +901,8 @@ def damage(path, fmt, how, member):
 
 
 PRE = ["none", "other", "same", "same+other"]
+LOAD_POLICIES = [("os", "once"), ("os", "persist"), ("perm", "once"), ("perm", "persist"),
+                 ("notfound", "once"), ("notfound", "persist")]
 
 
 class LoadWorld:
@@ -738,7 +971,8 @@ def run_load_case(lw, spec, out, stats, lines):
     desc_before = [describe(m) for m in created]
     loaded = None
     err = None
-    inj = Injector([lw.tmp], fault_at=spec.get("at"), mode="load", label=lw.label)
+    inj = Injector([lw.tmp], fault_at=spec.get("at"), mode="load", label=lw.label,
+                   policy=spec.get("policy", "once"), exc=spec.get("exc", "os"))
     with Hooks() as hk:
         with quiet():
             with inj:
@@ -753,8 +987,11 @@ def run_load_case(lw, spec, out, stats, lines):
         stats["load_err:" + err] += 1
     if loaded is not None:
         created.append(loaded)
-    hist = [spec, "pre=%s read_model(%s %s %s at=%s) -> %s" % (
-        spec["pre"], fmt, how, spec.get("member"), spec.get("at"), err or "ok")]
+    hist = [spec, "pre=%s read_model(%s %s %s at=%s%s) -> %s" % (
+        spec["pre"], fmt, how, spec.get("member"), spec.get("at"),
+        ":%s:%s" % (spec["exc"], spec["policy"]) if spec.get("exc") else "", err or "ok")]
+    if spec.get("at") is not None and err is None:
+        stats["load_absorbed:%s" % (inj.fired[0] if inj.fired else "-")] += 1
 
     def idx(impl):
         for i, m in enumerate(created):
@@ -773,8 +1010,9 @@ def run_load_case(lw, spec, out, stats, lines):
     after = [(k, id(v)) for k, v in _sys.models.items()]
     if _sys.serializing is not None or _sys.iomanager.serializing is not None:
         out.fail("serializing flag still set after a %s load" % ("failed" if err else "successful"), hist)
-    if os.listdir(lw.T) and not (inj.fired and inj.fired[0] in ("rmdir", "unlink")):
-        out.fail("temporary directory left behind after a load", hist)
+    left = sorted(n for n in os.listdir(lw.T) if not n.startswith("openpyxl."))
+    if left and not (inj.fired and inj.fired[0] in ("rmdir", "unlink")):
+        out.fail("temporary directory left behind after a load", hist, detail={"left": left})
     if err is not None:
         if sorted(i for _, i in after) != sorted(i for _, i in before):
             out.fail("a failed load changed the set of registered models: %s -> %s" % (
@@ -793,6 +1031,11 @@ def run_load_case(lw, spec, out, stats, lines):
         if describe(loaded) != lw.expected and how == "none":
             out.fail("a load reported success but the model differs from what was saved", hist)
     # later saves and loads behave normally
+    stats["load_cases"] += 1
+    if not spec.get("later", True):
+        close_all()
+        return list(inj.trace)
+    stats["later_checked"] += 1
     later = None
     try:
         with quiet():
@@ -814,7 +1057,7 @@ def run_load_case(lw, spec, out, stats, lines):
     if sorted(id(v) for v in _sys.models.values()) != sorted(i for _, i in after):
         out.fail("later load/save/close left other models registered", hist)
     close_all()
-    return len(inj.trace)
+    return list(inj.trace)
 
 
 def load_specs(ctx, lw, rng):
@@ -859,7 +1102,7 @@ def _compare(out, lines):
     return n
 
 
-def _run_spec(ctx, spec, out, stats, lines, tmp, worlds, lworlds, rng):
+def _run_spec(ctx, spec, out, stats, lines, tmp, worlds, lworlds, rng, nth=[0]):
     if spec["type"] == "save":
         key = (spec["model"], spec["log_input"])
         if key not in worlds:
@@ -880,6 +1123,10 @@ def _run_spec(ctx, spec, out, stats, lines, tmp, worlds, lworlds, rng):
             lworlds[key] = LoadWorld(d, key)
         lw = lworlds[key]
         tempfile.tempdir = lw.T
+        # quick tier: the load / save / load that follows is made after every third case
+        nth[0] += 1
+        if ctx.tier != "thorough" and "later" not in spec and nth[0] % 3 != 0:
+            spec = dict(spec, later=False)
         return run_load_case(lw, spec, out, stats, lines)
 
 
@@ -909,26 +1156,37 @@ def run(ctx, out):
             _run_spec(ctx, spec, out, stats, lines, tmp, worlds, lworlds, rng)
             stats["corpus_cases"] += 1
         # 1. saves: for each program the corpus histories, then generated ones
-        progs = [("nested", False), ("flat", True), ("pandas", False)]
         if ctx.tier == "thorough":
-            progs += [("nested", True), ("flat", False), ("pandas", True)]
+            progs = [("nested", False), ("flat", True), ("mixed", False), ("pandas", True), ("module", False),
+                     ("excel", True), ("nested", True), ("flat", False)]
+        else:
+            # one plain model each way, the model with every kind of IO data, one of the single-kind ones
+            progs = [("nested", False), ("flat", True), ("mixed", False),
+                     (ctx.rng("iokind").choice(["pandas", "module", "excel"]), True)]
         n_random = ctx.n(2, 36)
         for pi, (kind, log_input) in enumerate(progs):
-            hists = [h for i, h in enumerate(CORPUS) if ctx.tier == "thorough" or (i + pi) % 3 == 0 or
-                     (pi == 0 and i in (0, 2))]
-            for i in range(n_random):
+            if kind in IO_KINDS:
+                hists = [h for i, h in enumerate(CORPUS_IO) if ctx.tier == "thorough" or kind == "mixed" or i == 0]
+                if ctx.tier == "thorough":
+                    hists += CORPUS[1:2] + CORPUS[3:4]
+            else:
+                hists = [h for i, h in enumerate(CORPUS) if ctx.tier == "thorough" or (i + pi) % 3 == 0 or
+                         (pi == 0 and i in (0, 2))]
+            for i in range(n_random if kind not in IO_KINDS else ctx.n(2, 4)):
                 r = ctx.rng("hist", kind, log_input, i)
                 hists.append(gen_history(r, r.randrange(1, 7)))
             for h in hists:
                 spec = {"type": "save", "model": kind, "log_input": log_input, "hist": h}
                 _run_spec(ctx, spec, out, stats, lines, tmp, worlds, lworlds, rng)
+                stats["save_histories:" + kind] += 1
                 programs.add(repr((kind, log_input, h)))
                 stats["save_histories"] += 1
                 stats["hist_len:%d" % len(h)] += 1
                 if len(samples) < 3:
                     samples.append({"model": kind, "log_input": log_input, "saves": h})
         # 2. loads that fail
-        for kind in (MODEL_KINDS if ctx.tier == "thorough" else ["nested", "pandas"]):
+        for kind in (MODEL_KINDS if ctx.tier == "thorough" else
+                     ["nested", ctx.rng("loadkind").choice(["pandas", "module"])]):
             spec0 = {"type": "load", "model": kind, "fmt": "dir", "how": "none", "member": None,
                      "pre": "none", "at": None}
             _run_spec(ctx, spec0, out, stats, lines, tmp, worlds, lworlds, rng)
@@ -940,14 +1198,25 @@ def run(ctx, out):
             for fmt in ("dir", "zip"):
                 base = {"type": "load", "model": kind, "fmt": fmt, "how": "none", "member": None,
                         "pre": "same", "at": None}
-                nops = _run_spec(ctx, base, out, stats, lines, tmp, worlds, lworlds, rng)
+                ltrace = _run_spec(ctx, base, out, stats, lines, tmp, worlds, lworlds, rng)
+                nops = len(ltrace)
                 ks = list(range(nops))
                 if ctx.tier != "thorough" and nops > 12:
                     ks = sorted(set(list(range(6)) + list(range(6, nops, 4)) + [nops - 2, nops - 1]))
                 for j, k in enumerate(ks):
-                    spec = dict(base, at=k, pre=PRE[j % len(PRE)])
-                    _run_spec(ctx, spec, out, stats, lines, tmp, worlds, lworlds, rng)
-                    stats["load_fault_points"] += 1
+                    # a transient OSError at every chosen operation; the other error classes / a
+                    # persistent error in turn (thorough: every combination at every operation)
+                    pols = [("os", "once")] + (LOAD_POLICIES[1:] if ctx.tier == "thorough"
+                                                else [LOAD_POLICIES[1 + j % (len(LOAD_POLICIES) - 1)]])
+                    for pj, (exc, policy) in enumerate(pols):
+                        if not policy_allowed(ltrace[k], None, exc, policy):
+                            continue
+                        spec = dict(base, at=k, pre=PRE[(j + pj) % len(PRE)])
+                        if (exc, policy) != ("os", "once"):
+                            spec.update(exc=exc, policy=policy)
+                        _run_spec(ctx, spec, out, stats, lines, tmp, worlds, lworlds, rng)
+                        stats["load_fault_points"] += 1
+                        stats["load_policy:%s:%s" % (exc, policy)] += 1
             if len(samples) < 5:
                 samples.append(spec)
         compared = _compare(out, lines)
@@ -968,8 +1237,12 @@ def run(ctx, out):
     })
     out.assumptions.append(
         "faults are exceptions raised at a primitive file operation (os.rename/replace/unlink/rmdir/mkdir, open for "
-        "writing, ZipFile.writestr/write/close, pickler dump; for loads also open for reading and unpickler load); "
-        "torn writes, power loss and a non-atomic cross-device shutil.move are outside the model")
+        "writing, ZipFile.writestr/write/close, pickler dump; for loads also open for reading and unpickler load), "
+        "of class OSError / PermissionError / FileNotFoundError, once or persistently (every further operation of "
+        "the same kind on the same file fails too); a failing ZipFile.close releases the file without writing the "
+        "central directory; torn writes, power loss and a non-atomic cross-device shutil.move are outside the model; "
+        "a persistent PermissionError of an rmdir is not injected (CPython's TemporaryDirectory._rmtree recurses "
+        "without bound on it)")
 
 
 def replay(ctx, payload, out):
